@@ -191,12 +191,37 @@ func parseSpec(s string, prefix string) ([]specBit, error) {
 
 // matchSpec compares a computed vector with a spec; returns a description of the first mismatch.
 func matchSpec(got bits.Vec, spec []specBit) (bool, string) {
+	return matchSpecBind(got, spec, nil)
+}
+
+// matchSpecBind additionally resolves placeholders: a specification source "$n[0]" matches any
+// source "<root>[0]"; the root is bound on first use in bind and must stay the same afterwards.
+func matchSpecBind(got bits.Vec, spec []specBit, bind map[string]string) (bool, string) {
 	if len(got) != len(spec) {
 		return false, fmt.Sprintf("width %d, specification has %d bits", len(got), len(spec))
 	}
 	for i := range spec {
 		if spec[i].any {
 			continue
+		}
+		if src := spec[i].b.Src; strings.HasPrefix(src, "$") && bind != nil && (got[i].K == bits.In || got[i].K == bits.Not) {
+			ph, rest := src, ""
+			if j := strings.IndexAny(src, "[."); j >= 0 {
+				ph, rest = src[:j], src[j:]
+			}
+			actual := got[i].Src
+			if !strings.HasSuffix(actual, rest) {
+				return false, fmt.Sprintf("bit %d is %s, specification says %s (computed %s)", i, got[i], spec[i].b, got)
+			}
+			root := strings.TrimSuffix(actual, rest)
+			if b, ok := bind[ph]; ok && b != root {
+				return false, fmt.Sprintf("bit %d comes from %s but %s was bound to %s", i, actual, ph, b)
+			}
+			bind[ph] = root
+			if got[i].K == spec[i].b.K && got[i].J == spec[i].b.J {
+				continue
+			}
+			return false, fmt.Sprintf("bit %d is %s, specification says %s (computed %s)", i, got[i], spec[i].b, got)
 		}
 		if got[i] != spec[i].b {
 			return false, fmt.Sprintf("bit %d is %s, specification says %s (computed %s)", i, got[i], spec[i].b, got)
@@ -223,4 +248,263 @@ func sortedKeys(m map[string]string) []string {
 	}
 	sort.Strings(ks)
 	return ks
+}
+
+// emitted describes one packet buffer handed to append(payloads, out) in a payloader: the
+// allocation and the symbolic bytes it holds at that point.
+type emitted struct {
+	call  *ssa.Call
+	root  *ssa.MakeSlice
+	bytes func(k int) bits.Vec
+	fn    *ssa.Function
+}
+
+// emittedBuffers lists the buffers appended to a [][]byte in fn (including its closures).
+func emittedBuffers(c *Ctx, fn *ssa.Function) []emitted {
+	var out []emitted
+	var visit func(f *ssa.Function)
+	visit = func(f *ssa.Function) {
+		m := bits.Run(c.Prog, f)
+		var calls []*ssa.Call
+		for call := range m.Snaps {
+			calls = append(calls, call)
+		}
+		sort.Slice(calls, func(i, j int) bool { return calls[i].Pos() < calls[j].Pos() })
+		for _, call := range calls {
+			if len(call.Call.Args) != 2 {
+				continue
+			}
+			// appended element: the variadic slice literal holds one []byte element
+			var elem ssa.Value
+			if sl, ok := call.Call.Args[1].(*ssa.Slice); ok {
+				if a, ok := sl.X.(*ssa.Alloc); ok {
+					for _, ref := range *a.Referrers() {
+						if ia, ok := ref.(*ssa.IndexAddr); ok {
+							for _, r2 := range *ia.Referrers() {
+								if st, ok := r2.(*ssa.Store); ok && st.Addr == ia {
+									elem = st.Val
+								}
+							}
+						}
+					}
+				}
+			}
+			if elem == nil {
+				continue
+			}
+			mk, ok := elem.(*ssa.MakeSlice)
+			if !ok {
+				continue
+			}
+			snap := m.Snaps[call]
+			name := mk.Name()
+			out = append(out, emitted{call: call, root: mk, fn: f, bytes: func(k int) bits.Vec {
+				if v, ok := snap[fmt.Sprintf("%s[%d]", name, k)]; ok {
+					return v
+				}
+				return zeroByte()
+			}})
+		}
+		for _, a := range f.AnonFuncs {
+			visit(a)
+		}
+	}
+	visit(fn)
+	return out
+}
+
+func init() { Registry["EMITDUMP"] = emitDump }
+
+func emitDump(c *Ctx) {
+	c.R.Explain = "debug"
+	for _, name := range strings.Split(os.Getenv("RTPCHECK_FUNCS"), ",") {
+		fn := c.Prog.Func(name)
+		if fn == nil {
+			fmt.Println("no such function", name)
+			continue
+		}
+		for _, e := range emittedBuffers(c, fn) {
+			fmt.Printf("== %s emits %s at %s\n", core.FuncName(e.fn), e.root.Name(), c.Prog.Position(e.call.Pos()))
+			for k := 0; k < 6; k++ {
+				fmt.Printf("   [%d] = %s\n", k, e.bytes(k))
+			}
+		}
+	}
+	c.R.Add("BITS.dump", "debug", "dump", "", true, "")
+}
+
+// checkBytes compares the leading bytes of an emitted buffer with a table.
+func checkBytes(c *Ctx, rule string, e emitted, what string, table []string, prefix string) int {
+	bind := map[string]string{}
+	n := 0
+	for k, row := range table {
+		sp, err := parseSpec(row, prefix)
+		if err != nil {
+			c.R.Fatalf("bad specification %q: %v", row, err)
+			continue
+		}
+		ok, why := matchSpecBind(e.bytes(k), sp, bind)
+		n++
+		c.R.Add(rule, core.FuncName(e.fn), fmt.Sprintf("%s byte %d = %s", what, k, row), c.Prog.Position(e.call.Pos()), ok, why)
+	}
+	return n
+}
+
+// loopEmits returns the emitted buffers allocated inside a loop (fragment buffers).
+func loopEmits(c *Ctx, fn *ssa.Function) []emitted {
+	var out []emitted
+	for _, e := range emittedBuffers(c, fn) {
+		if inAnyLoop(e.root.Block()) {
+			out = append(out, e)
+		}
+	}
+	return out
+}
+
+func inAnyLoop(b *ssa.BasicBlock) bool {
+	seen := map[*ssa.BasicBlock]bool{}
+	stack := append([]*ssa.BasicBlock{}, b.Succs...)
+	for len(stack) > 0 {
+		x := stack[len(stack)-1]
+		stack = stack[:len(stack)-1]
+		if x == b {
+			return true
+		}
+		if seen[x] {
+			continue
+		}
+		seen[x] = true
+		stack = append(stack, x.Succs...)
+	}
+	return false
+}
+
+// ---- positional patterns for readers --------------------------------------------------------------
+
+// parseSrc splits "payload[t41+1]" into (root "payload", base "t41", off 1); "payload[3]" into
+// ("payload", "", 3); other sources return ok=false.
+func parseSrc(s string) (root, base string, off int, ok bool) {
+	i := strings.LastIndex(s, "[")
+	if i < 0 || !strings.HasSuffix(s, "]") {
+		return "", "", 0, false
+	}
+	root = s[:i]
+	idx := s[i+1 : len(s)-1]
+	if n, err := strconv.Atoi(idx); err == nil {
+		return root, "", n, true
+	}
+	j := strings.LastIndexAny(idx, "+-")
+	if j > 0 {
+		if n, err := strconv.Atoi(idx[j:]); err == nil {
+			return root, idx[:j], n, true
+		}
+	}
+	return root, idx, 0, true
+}
+
+type posBind struct {
+	root map[string]string
+	idx  map[string][2]string // placeholder -> (base, offset as string)
+}
+
+func newPosBind() *posBind { return &posBind{root: map[string]string{}, idx: map[string][2]string{}} }
+
+// matchPos compares got with a spec whose sources look like "$p[@c+1]".
+func matchPos(got bits.Vec, spec []specBit, pb *posBind) (bool, string) {
+	if len(got) != len(spec) {
+		return false, fmt.Sprintf("width %d, specification has %d bits", len(got), len(spec))
+	}
+	for i := range spec {
+		if spec[i].any {
+			continue
+		}
+		sb := spec[i].b
+		if sb.K == bits.Zero || sb.K == bits.One {
+			if got[i] != sb {
+				return false, fmt.Sprintf("bit %d is %s, specification says %s", i, got[i], sb)
+			}
+			continue
+		}
+		if got[i].K != sb.K || got[i].J != sb.J {
+			return false, fmt.Sprintf("bit %d is %s, specification says %s", i, got[i], sb)
+		}
+		sroot, sbase, soff, ok1 := parseSrc(sb.Src)
+		aroot, abase, aoff, ok2 := parseSrc(got[i].Src)
+		if !ok1 || !ok2 {
+			if sb.Src != got[i].Src {
+				return false, fmt.Sprintf("bit %d comes from %s, specification says %s", i, got[i].Src, sb.Src)
+			}
+			continue
+		}
+		if strings.HasPrefix(sroot, "$") {
+			if b, ok := pb.root[sroot]; ok && b != aroot {
+				return false, fmt.Sprintf("bit %d comes from %s, expected buffer %s", i, got[i].Src, b)
+			}
+			pb.root[sroot] = aroot
+		} else if sroot != aroot {
+			return false, fmt.Sprintf("bit %d comes from %s, specification says %s", i, got[i].Src, sb.Src)
+		}
+		if strings.HasPrefix(sbase, "@") {
+			want := [2]string{abase, strconv.Itoa(aoff - soff)}
+			if b, ok := pb.idx[sbase]; ok && b != want {
+				return false, fmt.Sprintf("bit %d comes from %s: byte position differs from the other bits of this field group (cursor %s%+s)", i, got[i].Src, b[0], b[1])
+			}
+			pb.idx[sbase] = want
+		} else if sbase != abase || soff != aoff {
+			return false, fmt.Sprintf("bit %d comes from %s, specification says %s", i, got[i].Src, sb.Src)
+		}
+	}
+	return true, ""
+}
+
+// readerField checks every non-zero store to recv.<field> in m against the allowed patterns and
+// requires each pattern to be used by at least one store. Patterns within one call share pb.
+func readerField(c *Ctx, rule string, m *bits.Machine, fname, field string, patterns []string, pb *posBind) int {
+	p := c.Prog
+	used := make([]bool, len(patterns))
+	var specs [][]specBit
+	for _, pt := range patterns {
+		sp, err := parseSpec(pt, "")
+		if err != nil {
+			c.R.Fatalf("bad pattern %q: %v", pt, err)
+			return 0
+		}
+		specs = append(specs, sp)
+	}
+	n := 0
+	for _, st := range m.Stores {
+		if st.Key != "recv."+field {
+			continue
+		}
+		if v, isC := st.Val.ConstVal(); isC && v == 0 {
+			continue // reset
+		}
+		n++
+		matched := false
+		var why string
+		for i, sp := range specs {
+			trial := &posBind{root: map[string]string{}, idx: map[string][2]string{}}
+			for k, v := range pb.root {
+				trial.root[k] = v
+			}
+			for k, v := range pb.idx {
+				trial.idx[k] = v
+			}
+			ok, w := matchPos(st.Val, sp, trial)
+			if ok {
+				matched, used[i] = true, true
+				*pb = *trial
+				break
+			}
+			why = w
+		}
+		c.R.Add(rule, fname, fmt.Sprintf("field %s decoded per table (%s)", field, strings.Join(patterns, " | ")), p.Position(st.Instr.Pos()), matched,
+			fmt.Sprintf("stored %s: %s", st.Val, why))
+	}
+	for i, u := range used {
+		if !u {
+			c.R.Add(rule, fname, fmt.Sprintf("field %s: form %q is decoded somewhere", field, patterns[i]), p.Position(m.Fn.Pos()), false, "no store matches this form")
+		}
+	}
+	return n
 }
